@@ -1001,14 +1001,16 @@ Definition i_sort (a : iarr) (cmp : val -> val -> Z) : iarr * result :=
   | _ => a_sort primI a cmp
   end.
 
-(* arrayproto_splice (builtin_array.go:431), source fast path; the result array is filled with
+(* arrayproto_splice (builtin_array.go:431), source fast path (growing only with a writable length, an extensible
+   array and no index property on the prototype chain: c575eac, bbc0a30); the result array is filled with
    createDataPropertyOrThrow, which turns a nil slot into a present undefined *)
 Definition i_splice (a : iarr) (st : Z) (dc : option Z) (items : list val) : iarr * result :=
   match a with
   | ID d => let len0 := da_length d in
             let start0 := rel st len0 in
             let del0 := match dc with None => len0 - start0 | Some z => N.min (Z.to_N (Z.max z 0)) (len0 - start0) end in
-            if d_guard d && ((len0 - del0 + nlen items <=? len0) || (da_lw d && b_ext (da_base d))) then
+            if d_guard d && ((len0 - del0 + nlen items <=? len0) ||
+                            (da_lw d && b_ext (da_base d) && match b_proto (da_base d) with [] => true | _ => false end)) then
               let len := da_length d in let vs := da_values d in
               let start := rel st len in
               let del := match dc with None => len - start | Some z => N.min (Z.to_N (Z.max z 0)) (len - start) end in
